@@ -170,7 +170,7 @@ def check_c16(tier, replay):
                 ("x32_21", sim_text(3, 2, 2, 1, 80, skip=False)), ("m21", sim_text(2, 1, 2, 1, 60))]
         nb = gen_fec_behaviours(scr, bpath, sims, 300 if th else 60, 80, vlib.seed())
         v.notes["generated_behaviours"] = nb
-        env = dict(VERIF_IN=ind, VERIF_OUT=outd, FEC_PAIR_SUM=9 if th else 6, FEC_BIG_PAIRS=40 if th else 8)
+        env = dict(VERIF_IN=ind, VERIF_OUT=outd, FEC_PAIR_SUM=9 if th else 6, FEC_BIG_PAIRS=40 if th else 8, FEC_BOUNDARY_PAIRS=10 if th else 3)
         rc, out = vlib.go_test("./fecdrv", "TestFecReplay$|TestFecMismatch$", env, timeout=3000)
         if rc != 0:
             raise MachineryError("fec driver failed:\n" + out[-4000:])
